@@ -237,11 +237,43 @@ class C19(Prop):
             return dict(case, bodies=bodies, requests=[names[ta], names[tb]], envs=envs, hooks={})
         return case
 
+    def _directed_env(self, rng, case):
+        """an environment variable naming a setting that only the *first* task's collection defines stays
+        set while a task of another collection runs (the former F-C19b: stale environment level)"""
+        _, st = ns.build_and_dump(case["script"])
+        if "ok" not in st:
+            return case
+        d = st["ok"]
+        hm = homes(d)
+        names = primary_names(d)
+        tids = [t for t in hm if t in names]
+        rng.shuffle(tids)
+        base = [case["init"]["defaults"], case["init"]["overrides"]]
+        for ta, tb in itertools.permutations(tids, 2):
+            if hm[ta] == hm[tb]:
+                continue
+            there = set()
+            for lvl in base + list(hm[tb]):
+                there.update(p for p, _ in gt.leaf_paths(gt.unjson(lvl)))
+            cands = [(p, v) for lvl in hm[ta] for p, v in gt.leaf_paths(gt.unjson(lvl))
+                     if p not in there and not isinstance(v, (list, tuple))]
+            if not cands:
+                continue
+            p, v = rng.choice(cands)
+            val = rng.choice(["0", "1", "5"]) if isinstance(v, int) and not isinstance(v, bool) else rng.choice(["1", "", "abc"])
+            env = {"INVOKE_" + "_".join(p).upper(): val}
+            reqs = [names[ta], names[tb]] + ([names[ta]] if rng.random() < 0.3 else [])
+            return dict(case, requests=reqs, envs=[env] if rng.random() < 0.6 else [env, env, {}], hooks={})
+        return case
+
     def generate(self, rng, tier, n):
         for _ in range(n):
             case = self._gen(rng)
-            if rng.random() < 0.25:
+            r = rng.random()
+            if r < 0.25:
                 case = self._directed(rng, case)
+            elif r < 0.4:
+                case = self._directed_env(rng, case)
             yield case
 
     def enumerate_small(self, tier):
@@ -400,40 +432,11 @@ class C19(Prop):
             kinds.append("hooks" if case["requests"] else "default")
         return ":".join(kinds)
 
-    def _stale_env(self, case, obs):
-        """F-C19b signature: on entry of some body a setting is visible that an environment variable names
-        but that no level defines for this call (defaults, overrides, the collection configuration actually
-        loaded, earlier writes)"""
-        recs = obs["ok"]["records"]
-        hm = homes(obs["state"]["ok"])
-        calls = self._calls(case, obs)
-        envs = case["envs"] or [{}]
-        written = set()
-        for k, r in enumerate(recs):
-            tid = r[0]
-            called_as = next((ca for t, ca in calls if t == tid), None)
-            path = hm.get(tid, ())
-            loaded = path if called_as is not None else path[:1]
-            defined = set(written)
-            for lvl in [case["init"]["defaults"], case["init"]["overrides"]] + list(loaded):
-                defined.update(p for p, _ in gt.leaf_paths(gt.unjson(lvl)))
-            env = envs[min(k, len(envs) - 1)]
-            if k >= 1:
-                for p, _ in gt.leaf_paths(gt.unjson(r[1])):
-                    if p not in defined and ("INVOKE_" + "_".join(p).upper()) in env:
-                        return True
-            for op, o in zip(case["bodies"].get(str(tid), []), r[2]):
-                if op[0] == "set" and "err" not in o:
-                    written.add(tuple(op[2]) + (op[3],))
-        return False
-
     def finding_of(self, case, obs):
         """F-C19: an executed pre/post task or implicitly chosen default task lives below the root, in a
         place whose path carries collection-level settings"""
         if "ok" not in obs or "ok" not in obs["state"]:
             return None
-        if self._stale_env(case, obs):
-            return "F-C19b"
         hm = homes(obs["state"]["ok"])
         ran = set(r[0] for r in obs["ok"]["records"])
         for tid, called_as in self._calls(case, obs):
